@@ -708,9 +708,10 @@ private:
 	// cst is either linear_constraint or reference_constraint
         auto cst = *(csts.begin());
         env.set(x, typename BoolToCstEnv::mapped_type(cst.negate()));
-      } else if (csts.size() > 1) { 
-	// we do not negate multiple conjunctions because it would
-	// become a disjunction so we give up
+      } else {
+	// nothing is known about y, or we would have to negate a
+	// conjunction which would become a disjunction: we give up.
+	// In both cases the constraints of the old x must go.
         env -= x;
       }
     }
